@@ -29,14 +29,49 @@ def wat(W, i):
     return Fl(wat_nan(W, i), wat_pinf(W, i), wat_ninf(W, i), wat_r(W, i))
 
 
+# reductions of a materialised array whose elements may be nan / +-inf (leaf `_numpy` methods): abstract
+# aggregates, extensional in the elements (c03 uses the witness-of-a-differing-row form of extensionality)
+aflag_nan = z3.Function("aflag_nan", WArr, z3.BoolSort())  # some element is nan
+aflag_pinf = z3.Function("aflag_pinf", WArr, z3.BoolSort())
+aflag_ninf = z3.Function("aflag_ninf", WArr, z3.BoolSort())
+amin_nan = z3.Function("amin_nan", WArr, z3.BoolSort())
+amin_pinf = z3.Function("amin_pinf", WArr, z3.BoolSort())
+amin_ninf = z3.Function("amin_ninf", WArr, z3.BoolSort())
+amin_r = z3.Function("amin_r", WArr, z3.RealSort())
+amax_nan = z3.Function("amax_nan", WArr, z3.BoolSort())
+amax_pinf = z3.Function("amax_pinf", WArr, z3.BoolSort())
+amax_ninf = z3.Function("amax_ninf", WArr, z3.BoolSort())
+amax_r = z3.Function("amax_r", WArr, z3.RealSort())
+
+
+def fl_sum(W):
+    """sum of the elements of W in the Fl algebra (order independent): nan if a nan or both infinities occur"""
+    nan = z3.Or(aflag_nan(W), z3.And(aflag_pinf(W), aflag_ninf(W)))
+    return Fl(nan, z3.And(z3.Not(nan), aflag_pinf(W)), z3.And(z3.Not(nan), aflag_ninf(W)), asum(W))
+
+
+def fl_min(W):
+    return Fl(amin_nan(W), amin_pinf(W), amin_ninf(W), amin_r(W))
+
+
+def fl_max(W):
+    return Fl(amax_nan(W), amax_pinf(W), amax_ninf(W), amax_r(W))
+
+
 class ArrO:
     """persistent array object"""
 
-    def __init__(self, length, elem, dtype, ident=None):
+    def __init__(self, length, elem, dtype, ident=None, mask=None, mask_id=None, count=None):
         self.length = length
         self.elem = elem  # index term -> V
         self.dtype = dtype  # 'float' | 'bool' | 'int'
         self.ident = ident if ident is not None else core.uid()
+        # a boolean-mask selection a[m]: `length` / `elem` stay those of the base array, `mask` says which rows
+        # survive, `count` is the (symbolic) number of survivors.  Only reductions, element-wise arithmetic with an
+        # equally masked array, and .shape[0] are defined on it.
+        self.mask = mask
+        self.mask_id = mask_id
+        self.count = count
 
 
 def Res(st, v=None, exc=None):
@@ -59,7 +94,12 @@ def read(st, v):
     return st.heap[v.oid]
 
 
-def new_arr(st, length, elem, dtype):
+def new_arr(st, length, elem, dtype, like=()):
+    """`like`: operands whose boolean-mask selection (if any) the result inherits"""
+    ms = masks_of(st, *[v for v in like if v is not None])
+    if ms:
+        m = ms[0]
+        return st.alloc(ArrO(length, elem, dtype, mask=m.mask, mask_id=m.mask_id, count=m.count))
     return st.alloc(ArrO(length, elem, dtype))
 
 
@@ -83,8 +123,18 @@ def fl_of(X, v):
     return f
 
 
+def masks_of(st, *vs):
+    ms = [st.heap[v.oid] for v in vs if is_arr(st, v) and st.heap[v.oid].mask is not None]
+    return ms
+
+
 def elementwise(X, st, a, b, fn, dtype):
     """result element closure for a binary op between array/scalar operands"""
+    ms = masks_of(st, a, b)
+    if ms:
+        arrs = [st.heap[v.oid] for v in (a, b) if is_arr(st, v)]
+        if len(ms) != len(arrs) or len({m.mask_id for m in ms}) != 1:
+            raise Unsupported("arithmetic between differently selected arrays")
     if is_arr(st, a):
         oa = read(st, a)
         ea = oa.elem
@@ -149,9 +199,11 @@ LOGIC = {
 }
 
 
-def with_out(X, st, n, elem, dtype, out):
+def with_out(X, st, n, elem, dtype, out, like=()):
     if out is None or isinstance(out, VNone):
-        return [Res(st, new_arr(st, n, elem, dtype))]
+        return [Res(st, new_arr(st, n, elem, dtype, like))]
+    if masks_of(st, *like):
+        raise Unsupported("out= with mask-selected operands")
     if not is_arr(st, out):
         raise Unsupported("out= is not an array")
     # the result elements must be evaluated on the pre-state of `out` (it may be an operand): closures
@@ -197,10 +249,10 @@ def call(X, st, name, args, kwargs):
         return with_out(X, st, n, elem, "bool", args[2] if len(args) > 2 else out)
     if name in CMP:
         n, elem = elementwise(X, st, args[0], args[1], CMP[name](X), "bool")
-        return with_out(X, st, n, elem, "bool", args[2] if len(args) > 2 else out)
+        return with_out(X, st, n, elem, "bool", args[2] if len(args) > 2 else out, like=args[:2])
     if name in ARITH:
         n, elem = elementwise(X, st, args[0], args[1], ARITH[name](X), "float")
-        return with_out(X, st, n, elem, "float", args[2] if len(args) > 2 else out)
+        return with_out(X, st, n, elem, "float", args[2] if len(args) > 2 else out, like=args[:2])
     if name == "floor":
         o = read(st, args[0])
 
@@ -388,12 +440,15 @@ def getslice(X, st, a, lo, hi):
     return [Res(st, new_arr(st, z3.simplify(z3.If(h > l, h - l, 0)), lambda i, o=o, l=l: o.elem(i + l), o.dtype))]
 
 
-def materialise(X, st, v):
-    """a WArr term whose elements are the current elements of the float array v"""
+def materialise(X, st, v, neutral=None):
+    """a WArr term whose elements are the current elements of the float array v; rows dropped by a boolean-mask
+    selection hold `neutral` (0 for sums, +inf / -inf for min / max)"""
     o = read(st, v)
     W = st.fresh("W", WArr)
     i = z3.Int(f"wi!{core.uid()}")
     fl = fl_of(X, o.elem(i))
+    if o.mask is not None:
+        fl = Fl.ite(o.mask(i), fl, neutral if neutral is not None else Fl.const(0.0))
     body = z3.And(wat_nan(W, i) == fl.nan, wat_pinf(W, i) == fl.pinf, wat_ninf(W, i) == fl.ninf, z3.Implies(fl.isfin(), wat_r(W, i) == fl.r))
     st.forall(i, z3.And(i >= 0, i < o.length), body, name="materialise", base_only=True)
     return W
@@ -408,22 +463,58 @@ def method(X, st, selfv, name, args, kw):
         return [Res(st, new_arr(st, o.length, o.elem, o.dtype))]
     if name == "sum":
         W = materialise(X, st, selfv)
+        if getattr(st, "np_special_sums", False):
+            # elements may be nan / +-inf (a quantity array): the order-independent Fl sum; a flag is set only if
+            # some element has it
+            st.np_reductions = getattr(st, "np_reductions", []) + [("sum", W)]
+            for flag, at in ((aflag_nan, wat_nan), (aflag_pinf, wat_pinf), (aflag_ninf, wat_ninf)):
+                j = z3.Int(f"flg!{core.uid()}")
+                none = st.forall(j, z3.And(j >= 0, j < o.length), z3.Not(at(W, j)), equiv=True, name="sum-flag", base_only=True)
+                st.add(z3.Implies(none, z3.Not(flag(W))))
+            return [Res(st, VFl(fl_sum(W), "npfloat"))]
         return [Res(st, VFl(Fl.fin(asum(W)), "npfloat"))]
+    if name in ("min", "max") and o.mask is not None:
+        W = materialise(X, st, selfv, neutral=Fl.const(float("inf") if name == "min" else float("-inf")))
+        st.np_reductions = getattr(st, "np_reductions", []) + [(name, W)]
+        out = []
+        for s, empty in X.branch(st, o.count == 0):
+            if empty:
+                out.extend(X.raise_(s, "ValueError", "zero-size array to reduction operation"))
+            else:
+                out.append(Res(s, VFl(fl_min(W) if name == "min" else fl_max(W), "npfloat")))
+        return out
     raise Unsupported(f"ndarray.{name}")
 
 
 def getattr_(X, st, v, name):
     o = st.heap[v.oid]
     if name == "shape":
-        return [Res(st, VTuple([VInt(o.length)]))]
+        return [Res(st, VTuple([VInt(o.count if o.mask is not None else o.length)]))]
     return [Res(st, core.VBuiltin("arr." + name, v))]
 
 
 def getitem(X, st, a, i):
     o = read(st, a)
     if isinstance(i, VInt):
+        if o.mask is not None:
+            raise Unsupported("element of a mask-selected array")
         return [Res(st, o.elem(i.t))]
-    raise Unsupported("array indexing form (masked selection changes the length: out of reach)")
+    if is_arr(st, i):
+        m = read(st, i)
+        if m.dtype == "bool" and o.mask is None and m.mask is None:
+            mid = id(m)
+            known = getattr(st, "mask_counts", {})
+            if mid not in known:
+                cnt = st.fresh("masked.count", z3.IntSort())
+                j = z3.Int(f"msk!{core.uid()}")
+                none = st.forall(j, z3.And(j >= 0, j < o.length), z3.Not(m.elem(j).t), equiv=True, name="mask-empty", base_only=True)
+                st.add(cnt >= 0, cnt <= o.length, (cnt == 0) == none)
+                known = dict(known)
+                known[mid] = cnt
+                st.mask_counts = known
+            cnt = known[mid]
+            return [Res(st, st.alloc(ArrO(o.length, o.elem, o.dtype, mask=lambda j, m=m: m.elem(j).t, mask_id=mid, count=cnt)))]
+    raise Unsupported("array indexing form")
 
 
 def setitem(X, st, a, idx, v):
@@ -469,7 +560,7 @@ def binop(X, st, op, a, b):
     if name is None:
         raise Unsupported("array arithmetic")
     n, elem = elementwise(X, st, a, b, ARITH[name](X), "float")
-    return [Res(st, new_arr(st, n, elem, "float"))]
+    return [Res(st, new_arr(st, n, elem, "float", like=(a, b)))]
 
 
 def child_numpy(X, st, ch, args, kwargs):
